@@ -448,10 +448,35 @@ def t_scatter_all(b, cur, cs):
     return cur, cs
 
 
+def t_scatter_static(b, cur, cs):
+    """ScatterND with constant indices over the first (static) dim: full range in order (redundant), or not."""
+    rng = b.rng
+    if any(d is None for d in cs) or not cs or not is_static(cs[0]) or cs[0] == 0 or cs[0] > 6:
+        return None
+    n = cs[0]
+    c = rng.random()
+    if c < 0.6:
+        rows = [[i] for i in range(n)]
+    elif c < 0.8:
+        rows = [[i] for i in reversed(range(n))]
+    else:
+        rows = [[i] for i in range(max(n - 1, 1))]
+    upd = b.add_input(TensorProto.FLOAT, [len(rows)] + list(cs[1:]), "upd")
+    name = b.fresh("c")
+    b.inits.append(numpy_helper.from_array(np.array(rows, dtype=np.int64), name))
+    attrs = {}
+    r = rng.random()
+    if r < 0.4:
+        attrs["reduction"] = "none"
+    elif r < 0.55:
+        attrs["reduction"] = "add"
+    return b.node("ScatterND", [cur, name, upd], attrs), cs
+
+
 TEMPLATES = [
     (t_reshape_own, 3), (t_expand_own, 3), (t_pieces_reshape, 4), (t_abs_chain, 3), (t_size, 1),
     (t_flatten, 2), (t_slice, 2), (t_cast_out, 1), (t_squeeze_piece, 2), (t_identity, 1),
-    (t_concat_zero, 1), (t_materialize, 2), (t_expand_binary, 3), (t_shape_attr, 2), (t_scatter_all, 2),
+    (t_concat_zero, 1), (t_materialize, 2), (t_expand_binary, 3), (t_shape_attr, 2), (t_scatter_all, 2), (t_scatter_static, 2),
 ]
 
 
